@@ -282,6 +282,31 @@ def announcement(chk: Check) -> None:
     call = [c for c in _calls(s) if last_name(c) == 'broadcast_send'][0]
     kws = {k.arg: k.value for k in call.keywords}
     chk.ob('DOM-announcement', oe, 'sender' in kws and norm(kws['sender']) in ('self.pid', 'self._pid'), 'the sender is the process id', node=call, kind='sender-pid')
+    # ... and the id is KNOWN when the first announcement (None -> CREATED) goes out: a process that chooses its own pid does so on the way INTO its first state -- in the
+    # constructor, in what the entering hook runs (on_create), or when it is rebuilt -- not in init(), which the metaclass runs after the initial state was entered
+    from ..rules import effective_funcs as _ef
+    before = {}
+    stack = [g for g in (prog.try_func('processes.Process.on_entering'), prog.try_func('processes.Process.__init__')) if g is not None]
+    while stack:
+        g = stack.pop()
+        if id(g.node) in before:
+            continue
+        before[id(g.node)] = g
+        stack += [h for h in chk.ctx.calls.summary(g).callees if not h.is_async]
+    early = {g.qualname for g in before.values()} | {'processes.Process.load_instance_state'}   # (a rebuilt process has the id it was saved with)
+    n_pid = 0
+    for g in _ef(prog):
+        if isinstance(g.node, ast.Lambda) or g.owner_class is None or not g.owner_class.is_subclass_of(prog.cls('processes.Process')) and g.owner_class is not prog.cls('processes.Process'):
+            continue
+        for st in (x for b in g.node.body for x in walk_shallow(b) if isinstance(x, (ast.Assign, ast.AnnAssign))):
+            tg = st.targets if isinstance(st, ast.Assign) else [st.target]
+            if any(norm(t) == 'self._pid' for t in tg) and st.value is not None:
+                n_pid += 1
+                okp = (getattr(g, 'origin', None) or g).qualname in early or g.qualname in early
+                chk.ob('DOM-announcement', g, okp, f'{g.short} gives the process its id' + (' before the first state is entered' if okp else
+                       ': that runs AFTER the initial state was entered and announced -- the creation broadcast of a process that chooses its own pid is sent by None'),
+                       node=st, kind='pid-known-at-first-announcement', expr=f'{g.short}: _pid store')
+    chk.floor('DOM-announcement:pid-stores', n_pid, 2)
     subj = kws.get('subject')
     sv = subj
     if isinstance(subj, ast.Name):
@@ -444,8 +469,10 @@ def loop_communicator(chk: Check) -> None:
             for p in f.params[1:]:
                 if name.startswith('add_') and p == f.params[1]:
                     # the subscriber is passed after conversion to a loop-scheduling callback
-                    conv = [x for x in calls_in_func(f, 'convert_to_comm')]
-                    ok &= len(conv) == 1 and norm(conv[0].args[0]) == p and norm(conv[0].args[1]) == 'self._loop' and 'converted' in passed
+                    from ..rules import Resolver as _Rs
+                    exp = [_Rs(f).expand(a) for a in list(inner[0].args) + [k.value for k in inner[0].keywords]]
+                    conv = [x for x in exp if isinstance(x, ast.Call) and last_name(x) == 'convert_to_comm']
+                    ok &= len(conv) == 1 and len(conv[0].args) == 2 and norm(conv[0].args[0]) == p and norm(conv[0].args[1]) == 'self._loop' and len(calls_in_func(f, 'convert_to_comm')) == 1
                 else:
                     ok &= p in passed
             rets = [r for r in ast.walk(f.node) if isinstance(r, ast.Return)]
